@@ -214,7 +214,8 @@ theorem ldwn_oob_facts (cfg : Cfg) (p : Project) (x : ldwn_Oob)
     exact (ldx_parse_elem cfg true rid x.s.name x.i x.info x.tname _ x.s.inst h.ident h.i32 h.get h.infoOf hndw).2
   · intro rid
     exact ldx_encodeValue_elem (ldx_wparsed rid (ldwn_Req.oob x).tag x.info x.v) x.info x.dim x.t x.bytes hnbb hseqb
-      (by rw [h.infoOf.typeName]; exact hndw) h.infoOf.ty h.notBits rfl rfl h.enc
+      (by rw [h.infoOf.typeName]; exact hndw) h.infoOf.ty h.notBits rfl rfl
+      (by show encode x.t (argOf x.t x.v) = _; rw [RT.argOf_of_canon x.t x.v h.canon]; exact h.enc)
   · show requestPathOf cfg (ldwn_Req.oob x).tag x.info = .ok (ldwn_pathOf cfg (ldwn_Req.oob x).tag x.info)
     rw [hpo, htag]; exact hpb
   · exact ⟨_, by show Denotes (ldwn_pathOf cfg (ldwn_Req.oob x).tag x.info) _; rw [hpo]; exact hdenb⟩
